@@ -117,6 +117,8 @@ class AccessMonitor(Monitor):
             # direct access to a labelled object (global scalar / register): must be a global data object or a register word
             if pi.in_global(addr, n):
                 return
+            if 0 <= addr and addr + n <= pi.stack_start:
+                return      # the register file (ap, fp, r0..): `lbs [d], r2` reads the low byte of a register (int -> byte narrowing)
             raise Violation('direct %s outside any global object' % kind, addr=addr, n=n)
         # access through a computed origin: inside one live stack array, or one global object
         for s, e in st.m['ext']:
